@@ -247,6 +247,9 @@ func (e *Eval) evalSwitchStmt(swt *ast.SwitchStmt, env *Env) (Obj, error) {
 					ft = true
 				case ast.CtrlBreak:
 					return &null{}, nil
+				case ast.CtrlContinue:
+					// continue belongs to the enclosing loop
+					return res, nil
 				}
 			default:
 				// switch is done
